@@ -37,6 +37,8 @@ pub enum Part {
     CapFilter(String, Cnf),
     /// `[ keys == <lit> ]` / `[ keys in [..] ]`
     KeysFilter { op: BinOp, neg: bool, rhs: Lit },
+    /// `[ keys in %v ]`: the right-hand side is a variable (which may resolve to nothing at all)
+    KeysFilterVar { op: BinOp, neg: bool, var: String },
 }
 
 #[derive(Clone, Debug, PartialEq)]
@@ -351,6 +353,13 @@ pub fn print_parts(parts: &[Part], ind: &str, out: &mut String) {
                 out.push_str(binop_text(*op, *neg));
                 out.push(' ');
                 print_lit(rhs, out);
+                out.push_str(" ]");
+            }
+            Part::KeysFilterVar { op, neg, var } => {
+                out.push_str("[ keys ");
+                out.push_str(binop_text(*op, *neg));
+                out.push_str(" %");
+                out.push_str(var);
                 out.push_str(" ]");
             }
         }
